@@ -236,13 +236,17 @@ fn cmd_replay(m: &BTreeMap<String, String>) {
     let reproduced: bool;
     let mut lines: Vec<String> = Vec::new();
     if rf.class == "diverge-across-processes" {
+        let plan_b = rf.plan_b.clone().unwrap_or_else(|| rf.plan.clone());
         let a = ctx.run_child(&rf.plan, timeout);
-        let b = ctx.run_child(&rf.plan, timeout);
+        let b = ctx.run_child(&plan_b, timeout);
         match (a, b) {
             (Some(a), Some(b)) => {
-                reproduced = a.step_log != b.step_log;
-                lines.push(format!("process 1: {:?}", a.step_log));
-                lines.push(format!("process 2: {:?}", b.step_log));
+                // the last step of both plans is the same request: compare what it produced
+                let la = a.step_log.last().and_then(|l| l.rsplit(' ').next().map(String::from));
+                let lb = b.step_log.last().and_then(|l| l.rsplit(' ').next().map(String::from));
+                reproduced = la != lb;
+                lines.push(format!("process 1 ({} steps): last step gave {:?}", a.step_log.len(), la));
+                lines.push(format!("process 2 ({} steps): last step gave {:?}", b.step_log.len(), lb));
             }
             _ => harness_error("child process produced no log"),
         }
@@ -290,6 +294,21 @@ fn cmd_minimise(m: &BTreeMap<String, String>) {
     let mut ctx = minimise::Ctx::new(&tmp, get(m, "max-trials", 1500));
     if let Some(r) = m.get("rustc") {
         ctx.rustc = Some(rustc_oracle::RustcOracle::new(std::path::Path::new(r), &tmp));
+    }
+    if rf.class == "diverge-across-processes" {
+        if let Some(b) = rf.plan_b.clone() {
+            ctx.max_trials = 600;
+            let (a2, b2) = minimise::minimise_pair(&mut ctx, &rf.plan, &b);
+            rf.plan = a2;
+            rf.plan_b = Some(b2);
+            rf.minimisation_trials = ctx.trials;
+            if let Some(s) = rf.plan.steps.last() {
+                rf.input = rf.plan.reqs[s.req].display();
+            }
+        }
+        let _ = std::fs::remove_dir_all(&tmp);
+        let _ = std::fs::write(&out, serde_json::to_string_pretty(&rf).unwrap());
+        return;
     }
     let step = rf.plan.steps.len() - 1;
     let res = minimise::minimise(&mut ctx, &rf.plan, &rf.class, step, None);
